@@ -72,20 +72,30 @@ HARNESS_RE = re.compile(r"Checking harness ([\w:]+)\.\.\.")
 
 
 def parse_kani_output(text):
-    """-> {harness: {status, failed_checks:[...], covers:{sat, unsat}, time_s}}"""
+    """fallback parser for the terse text log (used when --export-json wrote nothing, e.g. after a harness timeout).
+    With -j the result blocks are introduced by a line `Thread N: ` and belong to the harness that thread announced."""
     res = {}
+    thread_h = {}
     cur = None
     for line in text.splitlines():
-        m = HARNESS_RE.search(line)
+        m = re.match(r"^(?:Thread (\d+): )?Checking harness ([\w:]+)\.\.\.", line)
         if m:
-            cur = m.group(1).split("::")[-1]
-            res[cur] = {"status": "unknown", "failed_checks": [], "cover_satisfied": 0, "cover_unsat": 0, "time_s": None, "checks": None, "stubs": []}
+            h = m.group(2).split("::")[-1]
+            thread_h[m.group(1)] = h
+            cur = h
+            res[h] = {"status": "unknown", "failed_checks": [], "cover_satisfied": 0, "cover_total": 0, "time_s": None, "checks": None, "stubs": []}
             continue
+        m = re.match(r"^Thread (\d+):\s*(.*)$", line)
+        if m:
+            cur = thread_h.get(m.group(1), cur)
+            line = m.group(2)
+            if not line:
+                continue
         if cur is None:
             continue
         r = res[cur]
         if line.startswith("Failed Checks:"):
-            r["failed_checks"].append(line[len("Failed Checks:"):].strip())
+            r["failed_checks"].append(line[len("Failed Checks:"):].strip().strip('"'))
         m = re.match(r"\s*\*\* (\d+) of (\d+) failed", line)
         if m:
             r["checks"] = int(m.group(2))
